@@ -188,4 +188,34 @@ def earlyReturnShape (ps : List PeerSpec) : Bool :=
   (ps.any fun p => p.kind == .liarCFHeaders && p.variant == "consistent" && p.lied) &&
   (ps.any fun p => p.kind == .disconnectAt || p.kind == .silent)
 
+/-! ### the sync-peer bookkeeping, observed at quiescence
+
+`sync` is what the block manager holds as its sync peer: `none`, a connected
+peer, or a peer that is gone.  `ahead` = connected candidates that serve more
+than the client's block tip. -/
+
+inductive SyncObs where
+  | absent
+  | peer (k : Nat)
+  | gone (k : Nat)
+  | unknown
+deriving Repr, DecidableEq
+
+def SyncObs.ofString (s : String) : SyncObs :=
+  if s == "none" then .absent
+  else if s.startsWith "gone:" then .gone ((s.drop 5).toString.toNat?.getD 0)
+  else match s.toNat? with
+    | some k => .peer k
+    | Option.none => .unknown
+
+/-- (1) the sync peer is a connected peer or none; (2) with no sync peer, no
+connected candidate may be ahead of us at quiescence (`startSync` has to have
+been run for it). -/
+def syncFaults (sync : SyncObs) (connected ahead : List Nat) : List String :=
+  (match sync with
+   | .absent => if ahead.isEmpty then [] else ["no-sync-peer-while-candidate-ahead"]
+   | .peer k => if connected.contains k then [] else ["sync-peer-not-connected"]
+   | .gone _ => ["sync-peer-not-connected"]
+   | .unknown => ["sync-peer-not-connected"])
+
 end Neutrino.Converge
